@@ -69,7 +69,8 @@ TRANSLATORS = {
     "ceremony_skeleton": ("ceremony_skeleton.py", ["passkey-authenticator/src/authenticator.rs", "passkey-authenticator/src/authenticator/get_info.rs",
                                                    "passkey-authenticator/src/authenticator/make_credential.rs",
                                                    "passkey-authenticator/src/authenticator/get_assertion.rs",
-                                                   "passkey-authenticator/src/u2f.rs"], "theories/Auth/gen/Skeleton.v"),
+                                                   "passkey-authenticator/src/u2f.rs",
+                                                   "passkey-authenticator/src/authenticator/extensions/hmac_secret.rs"], "theories/Auth/gen/Skeleton.v"),
     "client_skeleton": ("client_skeleton.py", ["passkey-client/src/lib.rs"], "theories/Auth/gen/ClientSkeleton.v"),
 }
 
